@@ -46,6 +46,8 @@ type Stream struct {
 	Headers   []Field // all header fields as written, in order (incl. framing headers)
 	Framing   Framing
 	Gzip      bool
+	Coding    string  // content-coding other than gzip ("" = none)
+	Interim   int     // interim responses in front (their bytes are part of Hdr)
 	ConnClose bool    // "Connection: close" written
 	Body      []byte  // the entity the origin means (before content-coding)
 	Payload   []byte  // what is framed: gzip(Body) or Body
@@ -100,6 +102,12 @@ func GenBody(rng *hk.Rand, n int) []byte {
 }
 
 type GenOpts struct {
+	// Coding: content-coding of the payload other than via Gzip ("deflate", "br", "zstd", or
+	// "gzip" = same as Gzip); Interim: number of interim (1xx) responses written before the
+	// final one (part of Stream.Hdr); InterimCL: the interim responses carry a Content-Length
+	Coding    string
+	Interim   int
+	InterimCL bool
 	Framing   Framing
 	Gzip      bool
 	BodyLen   int
@@ -157,8 +165,14 @@ func GenStream(rng *hk.Rand, o GenOpts) *Stream {
 	s.Reason = "OK"
 	s.Body = GenBody(rng, o.BodyLen)
 	s.Payload = s.Body
+	if o.Coding == "gzip" {
+		o.Gzip, s.Gzip = true, true
+	}
 	if o.Gzip {
 		s.Payload = GzipBytes(s.Body)
+	} else if o.Coding != "" {
+		s.Payload = Encode(o.Coding, s.Body)
+		s.Coding = o.Coding
 	}
 	s.Headers = append(s.Headers, Field{"Content-Type", "application/octet-stream"})
 	for i := 0; i < o.NHeaders; i++ {
@@ -171,6 +185,8 @@ func GenStream(rng *hk.Rand, o GenOpts) *Stream {
 	}
 	if o.Gzip {
 		s.Headers = append(s.Headers, Field{"Content-Encoding", "gzip"})
+	} else if o.Coding != "" {
+		s.Headers = append(s.Headers, Field{"Content-Encoding", o.Coding})
 	}
 	switch o.Framing {
 	case FrCL:
@@ -199,6 +215,18 @@ func GenStream(rng *hk.Rand, o GenOpts) *Stream {
 		s.Headers[i], s.Headers[j] = s.Headers[j], s.Headers[i]
 	}
 	var h bytes.Buffer
+	for i := 0; i < o.Interim; i++ {
+		if i%2 == 0 {
+			h.WriteString("HTTP/1.1 103 Early Hints\r\nLink: </style.css>; rel=preload\r\n")
+		} else {
+			h.WriteString("HTTP/1.1 102 Processing\r\n")
+		}
+		if o.InterimCL {
+			fmt.Fprintf(&h, "Content-Length: %d\r\n", 3+i)
+		}
+		h.WriteString("\r\n")
+	}
+	s.Interim = o.Interim
 	fmt.Fprintf(&h, "HTTP/1.1 %d %s\r\n", s.Status, s.Reason)
 	for _, f := range s.Headers {
 		h.WriteString(f.Name + ": " + f.Value + "\r\n")
